@@ -11,7 +11,8 @@ use std::net::{IpAddr, Ipv4Addr, Ipv6Addr, SocketAddr, SocketAddrV4, SocketAddrV
 
 pub fn gen_fam(c: &mut Choices) -> FamId {
     // k256 most often (shrinks towards it), every family represented
-    const W: [FamId; 15] = [
+    const W: [FamId; 16] = [
+        FamId::Null,
         FamId::Nano,
         FamId::Big,
         FamId::Mid,
@@ -653,6 +654,9 @@ pub fn alphabet(fam: FamId) -> Vec<Op> {
         Op::RemoveInsert { remove: vec![], insert: vec![(b"tcp66".to_vec(), vec![0, 0, 9]), (b"ip4".to_vec(), vec![1])], k: 0 },
         Op::Insert { key: vec![b'k'; 56], val: TVal::U8(1), k: 0 },
         Op::Insert { key: b"parent".to_vec(), val: TVal::Record { list: false }, k: 0 },
+        Op::Insert { key: b"secp256k1".to_vec(), val: TVal::Bytes(vec![]), k: 0 },
+        Op::InsertRaw { key: b"ed25519".to_vec(), raw: vec![0x80], k: 0 },
+        Op::RemoveInsert { remove: vec![], insert: vec![(b"secp256k1".to_vec(), vec![])], k: 0 },
         // the caller hands over the signer's own public-key entry (a re-key that "changes nothing" in the
         // key entry as far as the displaced value is concerned), by the other key and by the own key
         Op::RemoveInsert { remove: vec![], insert: vec![(kn.clone(), fam.ref_pk(&exhaustive_keys(fam)[1].0))], k: 1 },
@@ -713,6 +717,51 @@ pub fn exhaustive_keys(fam: FamId) -> Vec<Secret> {
     let p = pool().of(fam.scheme());
     // a random-looking key and an edge scalar
     vec![Secret(p[p.len() - 1]), Secret(p[3 % p.len()])]
+}
+
+/// Records with MANY tiny pairs (one-byte keys and values: two bytes per pair), through the builder and
+/// through successive inserts; pair counts around every plausible "reasonable maximum" (64, 75, 76, 80, ...).
+pub fn many_pairs(quick: bool) -> Vec<History> {
+    let mut out = Vec::new();
+    let fams: &[FamId] = if quick { &[FamId::K256, FamId::Tiny] } else { &[FamId::K256, FamId::Ed, FamId::CombinedSecp, FamId::Tiny, FamId::Nano] };
+    for fam in fams {
+        let keys = exhaustive_keys(*fam);
+        for n in [30usize, 62, 63, 64, 65, 73, 74, 75, 76, 77, 80, 85, 100, 127, 128] {
+            let calls: Vec<BCall> = (0..n).map(|i| BCall::AddValue { key: vec![0x21 + i as u8], val: TVal::U8((i % 100) as u8 + 1) }).collect();
+            out.push(History { fam: *fam, keys: keys.clone(), init: Init::Builder { calls }, ops: vec![Op::Redecode, Op::SetPort { which: PortKey::Udp, port: 1, k: 0 }], fault_at: None, alt_keys: vec![] });
+        }
+        let ops: Vec<Op> = (0..90usize).map(|i| Op::Insert { key: vec![0x21 + i as u8], val: TVal::U8(7), k: 0 }).chain([Op::Redecode]).collect();
+        out.push(History { fam: *fam, keys: keys.clone(), init: Init::Builder { calls: vec![] }, ops, fault_at: None, alt_keys: vec![] });
+    }
+    out
+}
+
+/// Socket setters on records close to the limit that already hold the SAME port (and address) in the other
+/// address family / the same one: every filler length in a window around the limit.
+pub fn near_limit_sockets(quick: bool) -> Vec<History> {
+    let mut out = Vec::new();
+    let v6: SocketAddr = "[fe80::1]:9".parse().unwrap();
+    let v4: SocketAddr = "10.0.0.1:9".parse().unwrap();
+    for fam in [FamId::K256, FamId::Ed] {
+        let keys = exhaustive_keys(fam);
+        let fills: Vec<usize> = if quick { (125..=175).collect() } else { (100..=200).collect() };
+        for l in fills {
+            for (tcp, addr) in [(false, v6), (true, v6), (false, v4), (true, v4)] {
+                out.push(History {
+                    fam,
+                    keys: keys.clone(),
+                    init: Init::Decoded {
+                        seq: 5,
+                        pairs: vec![(b"ip".to_vec(), rlp::encode_str(&[10, 0, 0, 1])), (b"tcp".to_vec(), rlp::encode_uint(9)), (b"udp".to_vec(), rlp::encode_uint(9)), (b"zz".to_vec(), rlp::encode_str(&vec![0x7a; l]))],
+                    },
+                    ops: vec![Op::SetSocket { tcp, addr, k: 0 }],
+                    fault_at: None,
+                    alt_keys: vec![],
+                });
+            }
+        }
+    }
+    out
 }
 
 /// Long histories that repeat a small cycle of calls several hundred times (internal counters,
